@@ -18,6 +18,9 @@ Design1(x)   == [k \in 1..(2 * Len(x)) |-> IF (k - 1) % 2 = 0 THEN 1 ELSE x[((k 
 \* arange in eighths: all a + i*s < b, i = 0, 1, ...  (s > 0)
 ArangeCount(a, b, s) == IF b <= a THEN 0 ELSE ((b - a - 1) \div s) + 1
 Arange(a, b, s) == [i \in 1..ArangeCount(a, b, s) |-> a + (i - 1) * s]
+\* the same with the stop value infinitesimally ABOVE b: a grid point equal to b now belongs to [a, stop)
+ArangeCountAbove(a, b, s) == IF b < a THEN 0 ELSE ((b - a) \div s) + 1
+ArangeAbove(a, b, s) == [i \in 1..ArangeCountAbove(a, b, s) |-> a + (i - 1) * s]
 \* linspace(a, b, n), n >= 2, integers a, b: element i is the rational a + i (b - a)/(n - 1)
 Linspace(a, b, n) == [i \in 1..n |-> [n |-> a * (n - 1) + (i - 1) * (b - a), d |-> n - 1]]
 
@@ -51,6 +54,8 @@ Cases ==
   \cup {[call |-> "design", x |-> x, exp |-> Design1(x)] : x \in {<<5>>, <<2, 3>>, <<-1, 0, 4>>, <<7, 7, 7, 1>>}}
   \cup {[call |-> "arange", a |-> a, b |-> b, s |-> s, exp |-> Arange(a, b, s)] :
            a \in {-8, 0, 3}, b \in {-8, 0, 5, 8, 16, 19}, s \in {1, 2, 3, 8, 12}}
+  \cup {[call |-> "arange", a |-> a, b |-> b, s |-> s, above |-> TRUE, exp |-> ArangeAbove(a, b, s)] :
+           a \in {-8, 0, 3}, b \in {-8, 0, 3, 5, 8, 16, 19}, s \in {1, 2, 3, 8, 12}}
   \cup {[call |-> "linspace", a |-> a, b |-> b, n |-> n, exp |-> Linspace(a, b, n)] :
            a \in {-50, 0, 2}, b \in {-60, 4, 40}, n \in {2, 3, 6, 7, 60, 64}}
   \cup {[call |-> "is_square", len |-> n, exp |-> IF IsPerfectSquare(n) THEN Sqrt(n) ELSE -1] : n \in 1..50}
@@ -74,6 +79,9 @@ Sane(c) ==
     [] c.call = "toeplitz" -> LET n == Len(c.x) IN IsSym(Mat(n, n, c.exp)) /\ Row(Mat(n, n, c.exp), 0) = c.x
     [] c.call = "vandermonde" -> \A i \in 1..Len(c.x) : c.exp[(i - 1) * c.n + 1] = 1
     [] c.call = "design" -> \A i \in 1..Len(c.x) : c.exp[2 * i - 1] = 1 /\ c.exp[2 * i] = c.x[i]
+    [] c.call = "arange" /\ "above" \in DOMAIN c -> LET n == Len(c.exp) IN
+          /\ (n > 0 => c.exp[1] = c.a /\ c.exp[n] <= c.b /\ c.exp[n] + c.s > c.b)
+          /\ (n = 0 => c.b < c.a)
     [] c.call = "arange" -> LET n == Len(c.exp) IN
           /\ (n > 0 => c.exp[1] = c.a /\ c.exp[n] < c.b /\ c.exp[n] + c.s >= c.b)
           /\ (n = 0 => c.b <= c.a)
